@@ -41,6 +41,24 @@ impl OriginalPeer {
                 *b = 0;
             }
         }
+        // one peer in five sends a packet 1 that *almost* carries a Flash-Player-9 digest: built with
+        // a valid digest, then the same bit made wrong in two different 32-bit words of it (no valid
+        // digest, so it is a digest-less packet 1 like any other and must be echoed)
+        if rng.chance(1, 5) {
+            let role = if is_client { sha::Role::Client } else { sha::Role::Server };
+            let scheme = if rng.coin() { sha::Scheme::At8 } else { sha::Scheme::At772 };
+            let filler = rng.bytes(PACKET);
+            let mut built = sha::make_p1(role, scheme, &filler);
+            let off = sha::digest_offset(&built, scheme);
+            let (w1, w2) = (rng.usize(0, 7), rng.usize(0, 6));
+            let w2 = if w2 >= w1 { w2 + 1 } else { w2 };
+            let (byte, mask) = (rng.usize(0, 3), 1u8 << rng.below(8));
+            built[off + 4 * w1 + byte] ^= mask;
+            built[off + 4 * w2 + byte] ^= mask;
+            if sha::find_digest(&built, &sha::role_p1_key(role)).is_empty() {
+                p1 = built;
+            }
+        }
         let time2 = if rng.coin() { Some(*rng.pick(&[[0u8, 0, 0, 1], [0, 0, 0, 0], [0x12, 0x34, 0x56, 0x78], [0xFF, 0xFF, 0xFF, 0xFF]])) } else { None };
         OriginalPeer { is_client, own_p1: p1, inbuf: Vec::new(), stage: 0, sent_first: false, got_p2: None, got_p1: None, time2 }
     }
@@ -390,7 +408,7 @@ impl Check for C05 {
         run_one(rng, out);
     }
     fn rule(&self) -> String {
-        "one handshake per case: library client <-> library server (3/5), library client <-> independent original-handshake server (1/5), independent original-handshake client <-> library server (1/5); the original-handshake peer echoes packet 1 verbatim or fills in time2 with {0, 1, 0x12345678, 0xFFFFFFFF} as RTMP spec 5.2.4 describes (half each); four opening orders (client generates; both generate; client opens via process_bytes(&[]); server pre-generates via process_bytes(&[])); each side appends 0-4096 tagged trailing bytes right after its third packet; scheduler styles: byte-by-byte, everything available, random <= 4000, targeted (pieces ending exactly at, one before, one after stream offsets 1, 1537, 3073), mixed incl. empty deliveries, fixed read size from {512, 768, 1024, 1535, 1536, 1537, 3072, 3073}; half the runs with the library RNG, half with the seeded fill hook. distinct = (peer kind, opening, scheduler style, trailing-length classes, number of deliveries ending within 1 byte of a packet boundary).".to_string()
+        "one handshake per case: library client <-> library server (3/5), library client <-> independent original-handshake server (1/5), independent original-handshake client <-> library server (1/5); a fifth of the original-handshake peers send a packet 1 that almost carries a valid digest (the same bit wrong in two 32-bit words of it); the original-handshake peer echoes packet 1 verbatim or fills in time2 with {0, 1, 0x12345678, 0xFFFFFFFF} as RTMP spec 5.2.4 describes (half each); four opening orders (client generates; both generate; client opens via process_bytes(&[]); server pre-generates via process_bytes(&[])); each side appends 0-4096 tagged trailing bytes right after its third packet; scheduler styles: byte-by-byte, everything available, random <= 4000, targeted (pieces ending exactly at, one before, one after stream offsets 1, 1537, 3073), mixed incl. empty deliveries, fixed read size from {512, 768, 1024, 1535, 1536, 1537, 3072, 3073}; half the runs with the library RNG, half with the seeded fill hook. distinct = (peer kind, opening, scheduler style, trailing-length classes, number of deliveries ending within 1 byte of a packet boundary).".to_string()
     }
     fn assumptions(&self) -> Vec<String> {
         vec![
